@@ -14,7 +14,14 @@
    supplement bytes): it does not mention where the bytes live, so copies of
    a block that were obtained independently (decoded, multiproof-expanded,
    JSON, Share()d memory, DeepCopy) share a key exactly when they have the
-   same content.  A Mem names one region of memory holding inputs; a Digest
+   same content.  "Same content" is what the encodings and the ID carry: in
+   particular a TIMESTAMP IS ITS ENCODED SECOND - the sub-second part, the
+   location and the monotonic clock reading an in-memory time may carry are
+   representation (SameTimestamp below); a block given in such a
+   representation has the ID, proof of work and encoding of its whole-second
+   UTC form, hence its key, and so must verdict, state and update be - also
+   for every later block of a chain whose state would have kept the
+   difference.  A Mem names one region of memory holding inputs; a Digest
    is a hash of everything reachable from it (every proof slice included).
 
    Begin(id, key, mem, d)  a call starts on the inputs in mem, which hash to d.
@@ -87,6 +94,8 @@
    recorded from the real code.                                              *)
 EXTENDS Integers, Sequences, FiniteSets, TLC
 
+\* a time as held in memory: [sec, nsec, zone, mono]; its content is sec
+SameTimestamp(a, b) == a.sec = b.sec
 Empty == [x \in {} |-> TRUE]
 Fresh0 == [memo |-> Empty, open |-> Empty, seen |-> Empty, reg |-> Empty]
 
